@@ -453,6 +453,13 @@ func directed() [][]Ev {
 			pre = []Ev{{K: "tun", N: 1}, {K: "ans"}, {K: "refinit"}, {K: "refdata"}, {K: "allow"}}
 		}
 		out = append(out, append(pre, Ev{K: "set", V: v}, Ev{K: "tun", N: n}, Ev{K: "tun", N: 1 + i%3}, Ev{K: "ans"}, Ev{K: "tun", N: 2}))
+		if i%8 == 5 {
+			// the far side initiated and the device answered, but the confirmation never came ("next" pending); later the
+			// device's own key runs out mid-batch, it initiates, the response arrives: the new session must become
+			// current and deliver what was held
+			out = append(out, []Ev{{K: "tun", N: 1}, {K: "ans"}, {K: "refinit"}, {K: "allow"}, {K: "set", V: v}, {K: "tun", N: n}, {K: "tun", N: 2},
+				{K: "allow"}, {K: "uapi"}, {K: "ans"}, {K: "tun", N: 3}})
+		}
 		if i%8 == 3 {
 			// bind errors at this boundary: clean failure / partial send of the batch, then more batches;
 			// then an exhausted (or fresh) key whose initiation the bind refuses
